@@ -317,6 +317,9 @@ def gram_side(idx, rep, rule_name="gram-side"):
             n += 1
             rels = {}
             for t, pol in df.branch_conditions(c, fi.node):
+                if isinstance(t, ast.Name):
+                    t = df.resolve_value(fi.node, t)  # a named test (`is_wide = A.shape[1] > A.shape[0]`)
+                t, pol = df.normalise_test(t, pol)
                 r = _shape_rel(t, a, fi.node)
                 if r is None:
                     continue
